@@ -125,6 +125,9 @@ class NetSvcCase:
         self.k.errors = 0
         if self.rng.random() < self.crash_p:
             self.k.crash_at = self.k.calls + self.rng.randint(1, 14)
+        elif self.rng.random() < 0.08:
+            self.k.fail_at = self.k.calls + self.rng.randint(1, 10)
+            self.ctx.count('netsvc_transient_command_failure_armed')
         try:
             try:
                 return 'ok', fn(*args)
@@ -140,6 +143,20 @@ class NetSvcCase:
                 return 'raised', err
         finally:
             self.k.crash_at = None
+            self.k.fail_at = None
+
+    def died_after_transient_failure(self, step):
+        """An exception out of the start-up path, in a history in which a command failed transiently, is the
+        service process dying (its supervisor starts it again); the ownership oracles go on."""
+        if not getattr(self.k, 'transient_failures', 0):
+            return False
+        self.impl = None
+        self.phase = 'down'
+        self.queue = []
+        self.startup = []
+        self.flags.add('crash')
+        self.ctx.count('netsvc_died_in_%s_after_transient_failure' % step)
+        return True
 
     def common(self, step, post):
         for ip, owner in post.items():
@@ -163,7 +180,14 @@ class NetSvcCase:
         mine = [ip for ip, o in pre.items() if o == i]
         free = [h for h in self.hosts if h not in pre]
         marks = {n: set(v['members']) for n, v in self.k.sets.items()}
+        tf0 = getattr(self.k, 'transient_failures', 0)
         st, val = self.call(step, self.impl.on_create_request, i, {'environment': self.env[i]})
+        if not hasattr(self, 'replay_failed'):
+            self.replay_failed = {}
+        if step == 'startup-create' and st == 'raised' and getattr(self.k, 'transient_failures', 0) > tf0:
+            self.replay_failed[i] = True        # the replayed request of a running container got an error reply
+        elif st == 'ok':
+            self.replay_failed.pop(i, None)
         post = self.listing()
         self.log.append(dict(op=step, o=i, status=st, ret=(val.get('vip') if st == 'ok' else str(val)[:80])))
         self.ctx.count('netsvc_create_requests')
@@ -259,6 +283,8 @@ class NetSvcCase:
             self.flags.add('restart')
         if pre != post:
             self.violate('initialize-changed-entries', '%s -> %s' % (pre, post))
+        if st == 'raised' and self.died_after_transient_failure('initialize'):
+            return
         if st == 'raised':
             self.violate('exception:%s@initialize' % type(val).__name__, repr(val))
         if st == 'ok':
@@ -289,6 +315,10 @@ class NetSvcCase:
         if added or changed:
             self.violate('synchronize-added-or-rebound-entry', '%s %s' % (added, changed))
         for ip, o in removed.items():
+            if o in self.alive and o in self.told and getattr(self, 'replay_failed', {}).get(o):
+                self.violate('gc-removed-live-owner-entry:replayed-request-failed-on-a-transient-command-failure',
+                             'synchronize removed %s of %s (answered before the restart, request exists; its replay '
+                             'was answered with an error because a command failed transiently)' % (ip, o))
             if o in self.alive and o in self.told:
                 self.violate('gc-removed-live-owner-entry', 'synchronize removed %s of %s (answered, request exists)' % (
                     ip, o), witness=dict(entry=ip, holder=o))
@@ -302,6 +332,8 @@ class NetSvcCase:
                 self.flags.add('reclaim')
             if dead and any(o in self.alive for o in pre.values()):
                 self.flags.add('gc-mixed')
+        elif st == 'raised' and self.died_after_transient_failure('synchronize'):
+            pass
         elif st == 'raised':
             self.violate('exception:%s@synchronize' % type(val).__name__, repr(val))
         self.common('synchronize', post)
